@@ -2,7 +2,7 @@ CONSTANTS ScanDepModules = TRUE
           StrictUnknown = TRUE
           MaxMixed = 2
           MaxUniform = 4
-          Names = {"main", "app2", "my_app", "_x1", "a"}
+          Names = {"main", "app2", "my_app", "_x1", "a", "my-app", "x-1-y"}
           Layouts = {"flat", "nested"}
 SPECIFICATION Spec
 INVARIANTS RefusedIffUnknown DeclaredIsNeeded RefsDeclared NoDuplicates Pinned StdlibFeaturesOK WebTokioHasNet NamesOK DepsAreExpected Emit1
